@@ -1277,6 +1277,7 @@ func ruleFuncFlag(p *Program, r *Reporter) {
 	// success returns: operand is not the nil constant
 	good, n := true, 0
 	why := ""
+	nested := false // some successful return clears the flag instead of putting it back
 	// deferred restore of a value read before the flag was set
 	deferredOK := false
 	for _, b := range fn.Blocks {
@@ -1302,6 +1303,7 @@ func ruleFuncFlag(p *Program, r *Reporter) {
 					}
 					if c, ok := st.Val.(*ssa.Const); ok && c.Value != nil && !constant.BoolVal(c.Value) {
 						deferredOK = true
+						nested = true
 					}
 					// parameter of the deferred function: the argument at the defer
 					// site must be a load of the flag made before it was set
@@ -1331,20 +1333,30 @@ func ruleFuncFlag(p *Program, r *Reporter) {
 		if deferredOK {
 			continue
 		}
-		// walking back from the return: a store of false before the store of true
-		cleared := false
+		// walking back from the return: the last store to the flag puts back the
+		// value it had before it was set (a load made before the store of true)
+		cleared, constFalse := false, false
 		walkBackward(ret, func(ins ssa.Instruction) bool {
 			if st, ok := ins.(*ssa.Store); ok && fieldKey(st.Addr) == flag {
 				if c, ok := st.Val.(*ssa.Const); ok && c.Value != nil {
 					if !constant.BoolVal(c.Value) {
-						cleared = true
+						constFalse = true
 					}
 					return true
 				}
+				for _, o := range origins(st.Val) {
+					if ld, ok := o.(*ssa.UnOp); ok && fieldKey(ld.X) == flag && setTrue != nil && dominatesInstr(ld, setTrue) {
+						cleared = true
+					}
+				}
+				return true
 			}
 			return false
 		}, nil)
-		if !cleared {
+		if constFalse {
+			nested = true
+		}
+		if !cleared && !constFalse {
 			good = false
 			if why == "" {
 				why = "a successful return of the function parselet leaves the in-function flag set"
@@ -1352,6 +1364,15 @@ func ruleFuncFlag(p *Program, r *Reporter) {
 		}
 	}
 	r.Check(good && n > 0, "the in-function flag is cleared after a function definition", p.Pos(fn.Pos()), fmt.Sprintf("%d successful return(s), each after the flag was put back", n), why+": once any function has been defined, `local` is accepted everywhere in the rest of the script")
+	// ... and put back, not cleared: a definition may stand inside another
+	// function, which goes on after it
+	if good && n > 0 {
+		if nested {
+			r.Fail("the in-function flag gets its previous value back after a function definition", p.Pos(fn.Pos()), "the function parselet ends by storing false into the in-function flag: when the definition stands inside another function, the rest of that function is parsed as if it were outside any — a `local` after a nested definition is rejected (`function f() { function g() { return 1; } local x; … }`)")
+		} else {
+			r.OkNT("the in-function flag gets its previous value back after a function definition", p.Pos(fn.Pos()), "every successful return stores the value the flag had before it was set")
+		}
+	}
 }
 
 // ---------------------------------------------------------------------------
